@@ -15,6 +15,7 @@ def spec_strides(kind, sp, pat, es, ss, pv):
     if kind == 'stride': return list(ss)
     if kind == 'ulog': return [2 * C.prod(es[k + 1:]) for k in range(r)]
     if kind == 'urev': return [C.prod(es[k + 1:]) for k in range(r)]
+    if kind == 'ubc': return [0] * r
     if r < 2: return [1] * r
     e = es[0] if kind == 'lpad' else es[-1]
     ps = lm(pv, e) if pv is not None else (e if sp in ('D', None) else lm(sp, e))
@@ -62,6 +63,26 @@ def gen_cases(seed, tier, purposes):
             st = spec_strides(kind, sp, pat, es, ss, pv)
             span = 0 if any(e == 0 for e in es) else 1 + sum((e - 1) * s for e, s in zip(es, st)) + (1 if kind == 'ulog' else 0)
             if span > min(H, 900): continue
+            # ------------------------------------------------------------ C03: offsets in the upper half of a narrow index type
+            if 'C03' in purposes and t in ('u8', 'u16') and any(p is None for p in pat) and all(p != 0 for p in pat) and kind in ('left', 'right', 'stride', 'lpad', 'rpad') and acc in ('def', 'st'):
+                S = C.prod([p for p in pat if p is not None]); dpos = [k for k, p in enumerate(pat) if p is None]
+                target = rnd.choice([H, H - 1, (H * 3) // 4]) // S
+                bes = list(pat); rem = target
+                for k in dpos[:-1]: bes[k] = rnd.randint(1, 4); rem //= bes[k]
+                bes[dpos[-1]] = max(rem, 1)
+                bss = chain_strides(rnd, bes, (1,)) if kind == 'stride' else None
+                bst = spec_strides(kind, sp, pat, bes, bss, None)
+                bspan = 1 + sum((e - 1) * s for e, s in zip(bes, bst))
+                if H // 2 < bspan <= H and max(bst + [0]) <= H:
+                    hb = rnd.choice([0, 7]); seq = ['cma:0:%d:%d' % (hb, rnd.randint(1, 9)), 'ob:0']
+                    last = [e - 1 for e in bes]; pick = [last] + [[rnd.randrange(e) for e in bes] for _ in range(4)]
+                    pick += [[e - 1 if rnd.random() < 0.7 else rnd.randrange(e) for e in bes] for _ in range(3)]
+                    forms = ['pack', 'arr', 'cls', 'span'] + (['br1'] if r == 1 else [])
+                    for ix in pick:
+                        f = rnd.choice(forms); ity = rnd.choice(['i32', 'i64', 'u32', 'u64', t])
+                        seq.append('at:0:%s:%s:%s' % (f, ity, C.fmt(list(ix))))
+                    val = rnd.randint(1, 999); seq += ['wr:0:%d:%s' % (val, C.fmt(last)), 'df']
+                    cases.append(VCase(inst, bes, bss, None, seq, 'C03', dict(h=hb, write=[last, val], large=True)))
             hs = [0, 7, 300, 1000] if acc != 'sh' else [0, 7]
             # ------------------------------------------------------------ C11: histories on the pool
             if 'C11' in purposes:
@@ -101,6 +122,7 @@ def gen_cases(seed, tier, purposes):
                             if op in ('cp', 'mv'): tag[a] = tag[b]
                             elif op in ('as', 'ma') and tag[a] is not None and tag[b] is not None: tag[a] = tag[b]
                             elif op == 'sw' and tag[a] is not None and tag[b] is not None: tag[a], tag[b] = tag[b], tag[a]
+                    if acc == 'def': seq += ['c4:0:%d' % rnd.randrange(4)]
                     seq += ['un', 'df']
                     cases.append(VCase(inst, es_c, ss_c, pv, seq, 'C11', alt=(es2, ss2, pv2)))
             # ------------------------------------------------------------ C03: access forms
@@ -117,7 +139,14 @@ def gen_cases(seed, tier, purposes):
                 wix = rnd.choice(idxs); val = rnd.randint(1, 999)
                 seq += ['wr:0:%d:%s' % (val, C.fmt(list(wix))), 'df']
                 cases.append(VCase(inst, es, ss, pv, seq, 'C03', dict(h=h, write=[list(wix), val])))
-        # ---------------------------------------------------------------- C13: observers incl. boundary extents (no element access)
+        # ---------------------------------------------------------------- C13: a valid mapping (broadcast layout, span 1) whose extents multiply beyond
+        #                                                                  the index type: size() is formed in size_type and may wrap, empty() must not
+        if 'C13' in purposes and kind == 'ubc':
+            bits = C.ITYPES[t][0]; hb = 1 << (bits // 2); q = 1 << (bits // 4)
+            cand = {2: [(hb, hb), (1 << (bits - 2), 4), (H, H), (H, 2), (3, 5), (hb, hb + 1), (hb * 2, hb // 2)], 3: [(hb, q, q), (H, H, H), (2, 3, 4), (q, hb, q), (hb, hb, hb)]}.get(r, [])
+            for es0 in cand:
+                es1 = [p if p is not None else e for p, e in zip(pat, es0)]
+                if all(0 <= e <= H for e in es1): cases.append(VCase(inst, es1, None, None, ['cmp:0:0', 'ob:0', 'cv:0:0', 'o2:0'], 'C13', dict(wrap=True)))
         if 'C13' in purposes:
             for _ in range(2 if not thorough else 10):
                 big = rnd.random() < 0.6
